@@ -180,7 +180,7 @@ func init() {
 	add("C03", ruleR09_3, ruleR15_4, ruleR03_8)
 	add("C04", ruleR05_5, ruleR04_7)
 	add("C05", ruleR09_2, ruleR13_1)
-	add("C06", ruleR13_1)
+	add("C06", ruleR13_1, ruleR12_4)
 	add("C07", ruleR13_1)
 	add("C08", ruleR13_1, ruleR20_3)
 	add("C09", ruleR13_3, ruleR03_8)
